@@ -29,7 +29,11 @@ let parse_store (line : string) : hist =
   { base with gid = !gid; gpl = !gpl; forbidden = !forb; subs = !subs }
 
 (* both stores of a description, memoised (many queries share one store) *)
-let memo : (string, hist * Store.store * Store.store) Hashtbl.t = Hashtbl.create 64
+(* [zw]: the history contains a zero-work header.  Then the greatest-cumulative-work chain of the label-free
+   specification need not be the labelled one (C01's known finding), and the oracle is the any-work form of the
+   theorems: spec_*_mc on tip_chain (the chain of the reported tip = the LONGEST_CHAIN rows) of the model store,
+   whose labels and tip are compared with the implementation's by the `st` case of the same store. *)
+let memo : (string, hist * Store.store * Store.store * bool) Hashtbl.t = Hashtbl.create 64
 let stores (sl : string) =
   match Hashtbl.find_opt memo sl with
   | Some v -> v
@@ -37,9 +41,10 @@ let stores (sl : string) =
     let h = parse_store sl in
     let ms = Chain.run_from h.forbidden (Chain.init h.gid h.gpl) h.subs in
     let ss = ChainSpec.spec_run_from h.forbidden (Chain.init h.gid h.gpl) h.subs in
+    let zw = Stdlib.List.exists (fun sub -> work_of sub = BinNums.Z0) h.subs in
     if Hashtbl.length memo > 8 then Hashtbl.reset memo;
-    Hashtbl.replace memo sl (h, ms, ss);
-    (h, ms, ss)
+    Hashtbl.replace memo sl (h, ms, ss, zw);
+    (h, ms, ss, zw)
 
 let split_case (input : string) =
   match Stdlib.String.rindex_opt input '|' with
@@ -75,7 +80,7 @@ let row_ids l = Stdlib.List.map (fun r -> r.Store.id) l
 
 let model input =
   let (sl, q) = split_case input in
-  let (_, ms, _) = stores sl in
+  let (_, ms, _, _) = stores sl in
   if q = "st" then tip_string ms ^ "/" ^ states_string ms
   else if q = "loc" then
     (match Locator.latest_locator ms with Some l -> ids_string l | None -> "FUEL-EXHAUSTED")
@@ -89,13 +94,14 @@ let model input =
 (* the specification applied to the IMPLEMENTATION's observable *)
 let spec input obs =
   let (sl, q) = split_case input in
-  let (h, _, ss) = stores sl in
+  let (h, ms, ss, zw) = stores sl in
   if obs = "PANIC" || starts_with "PANIC" obs then "FAIL panic" else
   if q = "st" then begin
-    let want = dec_of_n (ChainSpec.spec_tip ss) ^ "/" ^ states_string (ChainSpec.spec_store ss) in
+    let want = if zw then tip_string ms ^ "/" ^ states_string ms
+      else dec_of_n (ChainSpec.spec_tip ss) ^ "/" ^ states_string (ChainSpec.spec_store ss) in
     if obs = want then "OK" else "FAIL store-mismatch want " ^ want
   end else if q = "loc" then begin
-    let want = ids_string (Locator.spec_locator ss) in
+    let want = ids_string (if zw then Locator.spec_locator_mc (Locator.tip_chain ms) else Locator.spec_locator ss) in
     if obs = want then "OK" else "FAIL locator-mismatch want " ^ want
   end else begin
     let (locs, stop) = parse_query q in
@@ -109,11 +115,12 @@ let spec input obs =
         match got with
         | None -> "FAIL unexpected-error " ^ g
         | Some got ->
-          let want = ids_string (row_ids (Locator.spec_locate ss locs stop)) in
+          let spec_loc l st = if zw then Locator.spec_locate_mc (Locator.tip_chain ms) l st else Locator.spec_locate ss l st in
+          let want = ids_string (row_ids (spec_loc locs stop)) in
           if got = want then "OK"
           else if locs = [] && got = "" then
             "FAIL empty-locator-yields-nothing want " ^ want
-          else if stop = h.gid && want = "" && got = ids_string (row_ids (Locator.spec_locate ss locs BinNums.N0)) then
+          else if stop = h.gid && want = "" && got = ids_string (row_ids (spec_loc locs BinNums.N0)) then
             "FAIL stop-genesis-treated-as-no-stop got " ^ got
           else "FAIL answer-mismatch got " ^ got ^ " want " ^ want
       end
